@@ -5,6 +5,7 @@
    classification.  All later proofs reason on the 17 kinds, never on the if-chains. *)
 From FF Require Import model.Bytes model.Msgp model.Forward model.Spec
   proofs.Bytes_Proofs proofs.Spec_Proofs.
+From FF Require Import proofs.Take_Proofs.
 From Coq Require Import Lia ZifyN ZifyNat ZifyBool.
 Open Scope N_scope.
 
@@ -231,7 +232,7 @@ Proof. destruct b; reflexivity. Qed.
 (* ---------- option readers (Spec) versus result readers (Msgp) ---------- *)
 
 Lemma otake_take k bs h t : otake k bs = Some (h, t) -> take k bs = Ok (h, t).
-Proof. unfold otake, take. destruct (k <=? len bs); [|discriminate]. now intros [= <- <-]. Qed.
+Proof. rewrite !otake_unfold, !take_unfold. destruct (k <=? len bs); [|discriminate]. now intros [= <- <-]. Qed.
 
 Lemma onum_rd_be k bs x t : onum (N.of_nat k) bs = Some (x, t) -> rd_be k bs = Ok (x, t).
 Proof.
@@ -241,7 +242,7 @@ Qed.
 
 Lemma otake_split k bs h t : otake k bs = Some (h, t) -> bs = h ++ t /\ len h = k.
 Proof.
-  unfold otake. destruct (N.leb_spec k (len bs)); [|discriminate]. intros [= <- <-].
+  rewrite !otake_unfold. destruct (N.leb_spec k (len bs)); [|discriminate]. intros [= <- <-].
   split; [now rewrite firstn_skipn|].
   unfold len in *. rewrite firstn_length. lia.
 Qed.
@@ -269,11 +270,11 @@ Proof.
 Qed.
 
 Lemma take_0 bs : take 0 bs = Ok ([], bs).
-Proof. unfold take. destruct (N.leb_spec 0 (len bs)); [reflexivity|lia]. Qed.
+Proof. rewrite !take_unfold. destruct (N.leb_spec 0 (len bs)); [reflexivity|lia]. Qed.
 
 Lemma take_succ_cons l b u d w : otake l u = Some (d, w) -> take (l + 1) (b :: u) = Ok (b :: d, w).
 Proof.
-  unfold otake, take. destruct (N.leb_spec l (len u)); [|discriminate]. intros [= <- <-].
+  rewrite !otake_unfold, !take_unfold. destruct (N.leb_spec l (len u)); [|discriminate]. intros [= <- <-].
   destruct (N.leb_spec (l + 1) (len (b :: u))) as [_|H']; [|unfold len in *; cbn [length] in H'; lia].
   replace (N.to_nat (l + 1)) with (S (N.to_nat l)) by lia. reflexivity.
 Qed.
